@@ -97,6 +97,14 @@ def Stage.limOf {α} : Stage α → Option Nat
   | .head _ k _ _ | .tail _ k _ _ | .skip _ k _ _ => k
   | .filter _ _ | .sort _ _ _ => none
 
+/-- `VectorObserver::into_parts` of Head / Tail / Skip (head.rs, tail.rs, skip.rs): the initial values for an
+    adapter stacked on this one — its current view. `none`: Filter / Sort are not observers themselves. -/
+def Stage.intoParts {α} : Stage α → Option (List α)
+  | .head l _ buf _ => some (if l < buf.length then buf.take l else buf)
+  | .tail l _ buf _ => some (if l < buf.length then truncateFromEnd buf l else buf)
+  | .skip c _ buf _ => some (match c with | some c => skeep buf c | none => [])
+  | .filter _ _ | .sort _ _ _ => none
+
 /-- `update_limit` / `update_count`: the diffs to emit and the stage with the new parameter -/
 def Stage.onLimit {α} (v : Nat) : Stage α → List (Diff α) × Stage α
   | .head l k b r => (Head.updateLimit l v b, .head v k b r)
